@@ -767,12 +767,13 @@ pub fn run_trace(trace: &Trace, ctx: &mut Ctx) -> RunOutcome {
                 fail!(si, call, "verdict", format!("rust {:?} ffi {:?}", rr.verdict, fr.verdict));
             }
         } else {
-            // failed call: output buffer and verdict cell untouched, context unchanged and usable
+            // failed call: context unchanged and usable. What a failed call leaves in the output buffer or the verdict cell is
+            // not part of the property (it speaks of the bytes / verdict of calls that succeed), so it is only counted.
             if fr.out.is_some() {
-                fail!(si, call, "output_on_failure", "a failed FFI call wrote the output buffer".to_string());
+                ctx.counters.inc("info.failed_ffi_call_wrote_output_buffer");
             }
             if fr.verdict.is_some() {
-                fail!(si, call, "verdict_on_failure", "a failed FFI call wrote the verdict".to_string());
+                ctx.counters.inc("info.failed_ffi_call_wrote_verdict_cell");
             }
             if step.storage_fail_at == 0 || fired_r == 0 {
                 match guarded(|| state_of(unsafe { &mut *s.ffi }, depth, false)) {
